@@ -824,6 +824,8 @@ type vfc13World struct {
 	markerValues [][]byte
 	fb           string
 	viol         bool
+	cuts         bool   // this history injects connection cuts and takes resume points from the real StartPoint
+	rewound      bool   // a restart resumed BEFORE the last committed unit (allowed in pipeline / parallel mode): repeats are allowed from then on
 	rerun        string // how VERIF_REPLAY re-runs this world: "hist <subseed> <events>" | "script <line>"
 }
 
@@ -838,6 +840,13 @@ func (w *vfc13World) violate(what, detail string, m map[string]interface{}) {
 
 func vfc13SiteName(i int) string { return string(rune('A' + i)) }
 
+func vfc13ModeName(m config.ReplayMode) string {
+	if m == "" {
+		return string(config.ReplayModeSync)
+	}
+	return string(m)
+}
+
 func vfc13NewWorld(t *testing.T, s *vfutil.Session, r *vfutil.Rand, ca, cb vfc13RedisCfg, fb string, mode config.ReplayMode) *vfc13World {
 	w := &vfc13World{t: t, s: s, commitCount: map[string]int{}, foreignOK: map[int]bool{}, fb: fb}
 	w.sites[0], w.sites[1] = vfc13NewSite(ca), vfc13NewSite(cb)
@@ -848,6 +857,9 @@ func vfc13NewWorld(t *testing.T, s *vfutil.Session, r *vfutil.Rand, ca, cb vfc13
 		ro := vfc13NewOutput(false, fb, cp, nil, nil, tg)
 		ro.cfg.ReplayMode = mode
 		ro.cfg.InputName = "in-" + vfc13SiteName(i) // the two links are two syncers: own input name, own run id ("runid-A" / "runid-B")
+		// the root checkpoint a finished full sync leaves at the target (state of the double only): the real StartPoint reads it
+		rid := "runid-" + vfc13SiteName(i)
+		tg.Seed(0, "hset", cp, rid+"_runid", rid, rid+"_version", config.Version, rid+"_offset", "0", "bisync_mode", vfc13ModeName(mode))
 		w.links[i] = &vfc13Link{src: i, dst: 1 - i, cp: cp, ro: ro, tg: tg, mode: mode}
 	}
 	return w
@@ -907,7 +919,7 @@ func vfc13GroupLog(entries []vfdoubles.LogEntry) []vfc13Req {
 		case "exec":
 			out = append(out, vfc13Req{multi: true, cmds: cur})
 			in = false
-		case "select", "hget", "hgetall", "exists", "info", "ping", "zrangebyscore", "zcard", "get", "command":
+		case "select", "hget", "hgetall", "hmget", "exists", "info", "ping", "zrangebyscore", "zrange", "zcard", "zscore", "get", "command", "type", "ttl", "pttl", "scan", "keys", "dbsize":
 		default:
 			if in {
 				cur = append(cur, c)
@@ -969,6 +981,8 @@ func (w *vfc13World) bookToken(l *vfc13Link, c vfc13Cmd) (string, bool) {
 		return fmt.Sprintf("hs:%s:%s:%s", vfutil.Hex(c.Args[1]), vfutil.Hex(c.Args[2]), nx), true
 	case name == "hdel" && k == config.CheckpointKeyHashKey && len(c.Args) == 2:
 		return fmt.Sprintf("hd:%s", vfutil.Hex(c.Args[1])), true
+	case name == "del" && len(c.Args) == 1 && k == checkpoint.BisyncFrontierKey(cp):
+		return fmt.Sprintf("fd:%s", vfutil.HexS(cp)), true
 	case name == "hset" && k == cp:
 		return fmt.Sprintf("rs:%s:%s", vfutil.HexS(cp), hexl(c.Args[1:])), true
 	case name == "hdel" && k == cp:
@@ -1063,7 +1077,17 @@ func (w *vfc13World) linkRun(r *vfutil.Rand, src int, n int) bool {
 		settle = 150 * time.Millisecond // lets the frontier ticker fire
 	}
 	l.newRequests()
+	cut := false
+	if w.cuts && r.Chance(1, 4) {
+		// the target connection drops after a few more requests: units already executed stay executed, replies are lost
+		l.tg.CutAt = l.tg.LogLen() + r.Range(2, 6+6*n)
+	}
 	err, log := vfBisyncLoopRun(w.t, l.ro, l.tg, "runid-"+name, wire, l.off, settle)
+	if l.tg.CutAt >= 0 && l.tg.LogLen() >= l.tg.CutAt {
+		cut = true // the cut was reached: whatever the loop returned (a target connection's EOF looks like the source's), it was interrupted
+		w.s.Count("loop_run_cut")
+	}
+	l.tg.CutAt = -1
 	l.logMark = l.tg.LogLen()
 	status := vfc13ParseStatus(err)
 	if status == "nil" {
@@ -1107,12 +1131,23 @@ func (w *vfc13World) linkRun(r *vfutil.Rand, src int, n int) bool {
 		w.commitBlock(l, kind, blocks[j], txn, m)
 		l.cpos, l.coff = l.pos+j+1, ends[j]
 	}
-	if status == "eof" {
+	if status == "eof" && !cut {
 		for i := next; i < n; i++ {
 			w.skipBlock(l, kind, blocks[i])
 		}
 		l.pos += n
 		l.off = ends[n-1]
+		return true
+	}
+	if cut && !strings.HasPrefix(status, "err-build") {
+		// the connection dropped (not a refusal): what was executed is executed; the syncer starts again
+		// from wherever the REAL StartPoint says
+		if next > 0 {
+			l.pos += next
+			l.off = ends[next-1]
+		}
+		w.s.Count("loop_cut_" + strings.SplitN(status, ":", 2)[0])
+		w.realRestart(r, src)
 		return true
 	}
 	// the loop stopped with an error: the model finds the block it stops at
@@ -1138,9 +1173,103 @@ func (w *vfc13World) linkRun(r *vfutil.Rand, src int, n int) bool {
 // last unit it committed with a fresh parser; blocks it had passed over since are read again; a stop is forgotten
 func (w *vfc13World) restart(src int) {
 	l := w.links[src]
-	w.evs = append(w.evs, fmt.Sprintf("R%s:%d", vfc13SiteName(src), l.cpos))
+	w.evs = append(w.evs, fmt.Sprintf("R%s:%d:%d", vfc13SiteName(src), l.cpos, l.ro.bisyncSeq.Load()+1))
 	l.pos, l.off, l.halted = l.cpos, l.coff, false
 	w.s.Count("link_restart")
+}
+
+// blockStart: byte offset at which block i of site `src`'s stream starts
+func (w *vfc13World) blockStart(src, i int) int64 {
+	var off int64
+	for _, blk := range w.sites[src].stream[:i] {
+		for _, c := range blk.wire() {
+			off += int64(len(vfc13Resp(c)))
+		}
+	}
+	return off
+}
+
+// realRestart: the resume point comes from the REAL RedisOutput.StartPoint (bisyncStartPoint: latest records in
+// sync mode, frontier snapshot + journal otherwise; the in-memory fast path when the same process asks again)
+// evaluated on the link's target double — a fresh process (new RedisOutput) or the same one. What StartPoint
+// writes (frontier save, journal clean-up) is bookkeeping traffic like any other. A resume point BEFORE the last
+// committed unit is allowed (pipeline / parallel): from then on units may repeat, nothing else may change.
+func (w *vfc13World) realRestart(r *vfutil.Rand, src int) {
+	l := w.links[src]
+	name := vfc13SiteName(src)
+	ro := l.ro
+	fresh := r.Bool()
+	if fresh {
+		ro = vfc13NewOutput(false, w.fb, l.cp, nil, nil, l.tg)
+		ro.cfg.ReplayMode = l.mode
+		ro.cfg.InputName = "in-" + name
+	}
+	l.tg.CutAt = -1
+	l.newRequests()
+	oldSeq, oldOff := ro.bisyncSeq.Load(), ro.bisyncOffset.Load()
+	keep := func() { // no restart after all: the same process goes on as it was
+		if !fresh {
+			ro.bisyncSeq.Store(oldSeq)
+			ro.bisyncOffset.Store(oldOff)
+		}
+	}
+	sp, err := ro.StartPoint(context.Background(), []string{"runid-" + name, "0000000000000000000000000000000000000000"})
+	l.tg.CloseAll()
+	for _, q := range l.newRequests() {
+		w.applyToolRequest(l, q)
+	}
+	kind := "same"
+	if fresh {
+		kind = "fresh"
+	}
+	if err != nil || sp.RunId != "runid-"+name {
+		// no usable point (the bookkeeping events of this history rewrote or deleted the root): the tool would
+		// resynchronise in full — not a restart of this model; the link goes on where it was
+		w.s.Count("real_restart_no_point_" + kind)
+		keep()
+		return
+	}
+	p := -1
+	for i := 0; i <= len(w.sites[src].stream); i++ {
+		if w.blockStart(src, i) == sp.Offset {
+			p = i
+			break
+		}
+	}
+	switch {
+	case p < 0:
+		w.violate("resume-off-block-boundary", fmt.Sprintf("StartPoint (%s process) resumes at offset %d, which is no block boundary of the source stream", kind, sp.Offset),
+			map[string]interface{}{"link": name})
+		w.viol = true
+		keep()
+		return
+	case p > l.pos:
+		// the resume point lies beyond what the harness has accounted for as read: the blocks in between were
+		// passed over by the interrupted run (reported offsets include them); none of them may be owed a commit
+		lk := "j"
+		if l.mode == config.ReplayModeSync || l.mode == "" {
+			lk = "l"
+		}
+		for i := l.pos; i < p; i++ {
+			w.skipBlock(l, lk, w.sites[src].stream[i]) // flags foreign-block-suppressed for a client block
+		}
+		l.pos = p
+		w.s.Count("real_restart_beyond_accounted_" + kind)
+	}
+	switch {
+	case p < l.cpos:
+		w.rewound = true
+		w.s.Count("real_restart_rewinds_" + kind)
+	default:
+		w.s.Count("real_restart_exact_" + kind)
+	}
+	w.evs = append(w.evs, fmt.Sprintf("R%s:%d:%d", name, p, ro.bisyncSeq.Load()+1))
+	l.ro = ro
+	l.pos, l.off, l.halted = p, sp.Offset, false
+	if p < l.cpos {
+		l.cpos, l.coff = p, sp.Offset
+	}
+	w.s.Count("link_real_restart")
 }
 
 // commitBlock: the MULTI block the target double received for the unit of
@@ -1216,7 +1345,7 @@ func (w *vfc13World) commitBlock(l *vfc13Link, kind string, blk vfc13Block, txn 
 	w.sites[l.dst].exec(true, txn, func(int) string { return "t" + id })
 	w.commits = append(w.commits, blk.tag+"@"+vfc13SiteName(l.dst))
 	w.commitCount[blk.tag]++
-	if blk.tag[0] == 'f' && w.commitCount[blk.tag] > 1 {
+	if blk.tag[0] == 'f' && w.commitCount[blk.tag] > 1 && !w.rewound {
 		w.violate("write-applied-twice", "the unit of block "+blk.tag+" was committed more than once", replay)
 		w.viol = true
 	}
@@ -1369,7 +1498,7 @@ func (w *vfc13World) drain(r *vfutil.Rand) {
 			break
 		}
 	}
-	if got := len(w.commits) - emittedBefore; got > pending {
+	if got := len(w.commits) - emittedBefore; got > pending && !w.rewound {
 		w.violate("no-quiescence", fmt.Sprintf("%d units were committed during the drain, only %d foreign blocks were pending", got, pending),
 			map[string]interface{}{"events": strings.Join(w.evs, " ")})
 		w.viol = true
@@ -1383,7 +1512,7 @@ func (w *vfc13World) drain(r *vfutil.Rand) {
 			}
 			var id int
 			fmt.Sscanf(b.tag, "f%d", &id)
-			if w.foreignOK[id] && len(b.cmds) > 0 && w.commitCount[b.tag] != 1 {
+			if w.foreignOK[id] && len(b.cmds) > 0 && (w.commitCount[b.tag] < 1 || (w.commitCount[b.tag] != 1 && !w.rewound)) {
 				w.violate("write-not-applied-exactly-once", fmt.Sprintf("block %s applied %d times at the other site", b.tag, w.commitCount[b.tag]),
 					map[string]interface{}{"events": strings.Join(w.evs, " ")})
 				w.viol = true
@@ -1400,6 +1529,10 @@ func vfc13RunHistory(t *testing.T, s *vfutil.Session, sub uint64, nEv int) bool 
 	mode := vfutil.Pick(r, []config.ReplayMode{config.ReplayModeSync, config.ReplayModePipeline, config.ReplayModeParallel})
 	w := vfc13NewWorld(t, s, r, cfgs(), cfgs(), "none", mode)
 	w.rerun = fmt.Sprintf("hist %d %d", sub, nEv)
+	w.cuts = r.Chance(1, 3)
+	if w.cuts {
+		s.Count("history_with_cuts_and_real_startpoint")
+	}
 	s.Count("history_mode_" + string(mode))
 	for i := 0; i < nEv; i++ {
 		site := r.Intn(2)
@@ -1438,7 +1571,11 @@ func vfc13RunHistory(t *testing.T, s *vfutil.Session, sub uint64, nEv int) bool 
 		case x < 86:
 			w.linkRun(r, site, r.Range(1, 6))
 		case x < 90:
-			w.restart(site)
+			if w.cuts && r.Bool() {
+				w.realRestart(r, site)
+			} else {
+				w.restart(site)
+			}
 		case x < 94:
 			// a snapshot unit: the expanded commands of one value (1…150 of them), one MULTI with the rdb marker
 			ns := 1
